@@ -364,6 +364,15 @@ fn c20(r: &Runner) {
                     }
                 }
             }
+            // long sequences (a block-wise reduction is wrong only when the length is not a multiple of its block): this value
+            // and its neighbours in the universe, repeated to every length in a list
+            for len in [4usize, 7, 8, 9, 12, 15, 16, 17, 31, 33, 64, 65, 100, 257, 513] {
+                let s = V::L((0..len).map(|k| vu(&tv[(i + k * k) % tv.len()])).collect());
+                for rf in 0..5usize {
+                    exec(l, bits, Op::sum, &[s.clone(), V::n(rf)]);
+                    exec(l, bits, Op::product, &[s.clone(), V::n(rf)]);
+                }
+            }
             for rf in 0..5usize {
                 exec(l, bits, Op::sum, &[V::L(vec![]), V::n(rf)]);
                 exec(l, bits, Op::product, &[V::L(vec![]), V::n(rf)]);
